@@ -126,7 +126,7 @@ def script_picker(segments, then=None):
                 state['left'] = None
                 continue
             if len(seg) == 3 and seg[1] == 'until':
-                if actor.started and actor.last_label == seg[2]:
+                if actor.started and actor.last_label in (seg[2], f'point:{seg[2]}'):
                     state['i'] += 1
                     continue
                 return actor
